@@ -45,13 +45,16 @@ func (d HypergeometicDist) pmf(k int) float64 {
 // contains exactly d.K successes.
 func (d HypergeometicDist) CDF(k float64) float64 {
 	// Based on Klotz, A Computational Approach to Statistics.
-	ki := int(math.Floor(k))
+	// Compare before converting to int: the conversion of a float
+	// beyond the range of int is implementation-specific.
+	k = math.Floor(k)
 	l, h := d.bounds()
-	if ki < l {
+	if !(k >= float64(l)) {
 		return 0
-	} else if ki >= h {
+	} else if k >= float64(h) {
 		return 1
 	}
+	ki := int(k)
 	// Use symmetry to compute the smaller sum.
 	flip := false
 	if ki > (d.Draws+1)/(d.N+1)*(d.K+1) {
